@@ -11,8 +11,25 @@ import (
 	"gorgonia.org/tensor"
 )
 
-// one gate call under recover; outcome in the vocabulary of Check/CheckC15.v
+// one gate call under recover; outcome in the vocabulary of Check/CheckC15.v.
+// The call is made three ways, which must agree (else GOChanged): on a fresh instance; on an instance
+// whose gate was first called with LONGER input lists (a gate must not remember an earlier call's
+// arity); and, for zero inputs, with a nil slice instead of an empty one (what Model.Run passes for a
+// node without inputs).
 func gateCall(name string, ins []tensor.Tensor) (out string) {
+	fresh := gateOnce(name, ins, 0, false)
+	if used := gateOnce(name, ins, 2, false); used != fresh {
+		return "GOChanged"
+	}
+	if len(ins) == 0 {
+		if asNil := gateOnce(name, ins, 0, true); asNil != fresh {
+			return "GOChanged"
+		}
+	}
+	return fresh
+}
+
+func gateOnce(name string, ins []tensor.Tensor, longerFirst int, nilSlice bool) (out string) {
 	defer func() {
 		if r := recover(); r != nil {
 			out = "GOPanic"
@@ -22,6 +39,16 @@ func gateCall(name string, ins []tensor.Tensor) (out string) {
 	if err != nil {
 		return "GOPanic"
 	}
+	for k := longerFirst; k > 0; k-- {
+		func() {
+			defer func() { recover() }()
+			longer := append([]tensor.Tensor{}, ins...)
+			for i := 0; i < k; i++ {
+				longer = append(longer, tensor.New(tensor.WithShape(1), tensor.WithBacking([]float32{3})))
+			}
+			op.ValidateInputs(longer)
+		}()
+	}
 	given := append([]tensor.Tensor{}, ins...)
 	// the caller's slice has spare capacity that still holds tensors of an earlier call: the gate must
 	// present the omitted optional inputs as absent, not whatever lies behind the slice's length
@@ -29,6 +56,9 @@ func gateCall(name string, ins []tensor.Tensor) (out string) {
 	copy(buf, ins)
 	for i := len(ins); i < cap(buf); i++ {
 		buf[:cap(buf)][i] = tensor.New(tensor.WithShape(1), tensor.WithBacking([]float32{7}))
+	}
+	if nilSlice {
+		buf = nil
 	}
 	res, err := op.ValidateInputs(buf)
 	if err != nil {
